@@ -543,6 +543,10 @@ func (st *State) mathCall(name string, args []Value) (Value, bool) {
 		if a.sort == SF64 {
 			zero := ts.F64(0)
 			ip := ts.fun1(OFTrunc, a)
+			if st.implied(ts.fcmp(OFLt, zero, a)) {
+				// positive argument: frac = a - trunc(a)
+				return TupleV{ip, ts.fbin(OFSub, a, ip)}, true
+			}
 			na := ts.fun1(OFNeg, a)
 			fneg := ts.fun1(OFNeg, ts.fbin(OFSub, na, ts.fun1(OFTrunc, na)))
 			fpos := ts.fbin(OFSub, a, ip)
